@@ -132,6 +132,18 @@ CHECKS["C02"] = dict(
     note="Layer invariant and metadata law assumed; env variable names concrete (C03 covers symbolic names); quick tier: one SBOM format, no "
          "pre-existing exec.d program. " + BASE_NOTE)
 
+CHECKS["C20"] = dict(
+    text="Self-composition over the real code: trait-API handle_layer (create / update / keep / recreate / metadata migration, with a result "
+         "carrying two process-scoped env deltas plus a launch delta, two exec.d programs and two SBOMs) and the struct-API writers "
+         "write_exec_d_programs / write_sboms are executed from MIR twice on two copies of one arbitrary symbolic layers directory; in the "
+         "second run every HashMap iteration and every directory listing is permuted by a solver-chosen permutation. The solver decides "
+         "that both runs end in the same result class and, when they succeed, in node-for-node identical post-states (file kinds, "
+         "contents, toml trees). Any clock/randomness/pid/temp-name call has no summary, so reaching one is inconclusive. Six fresh "
+         "processes of the real build (fresh hash seeds) are compared byte for byte as validation.",
+    design_ref="DESIGN.md §5 C20",
+    technique="self-composition by symbolic execution of rustc MIR (mirsym) with solver-chosen iteration permutations + z3; repeated real runs in fresh processes",
+    note="Phase outputs (launch.toml, store.toml, build plan) are not self-composed yet; toml text layer outside (trees compared). " + BASE_NOTE)
+
 NOT_YET = "check not built yet in this round (see DESIGN.md §9 build order); no claim is made"
 NOT_APPLICABLE = {}
 ALL = [f"C{i:02d}" for i in range(1, 21)]
